@@ -1632,6 +1632,12 @@ class SchemaAgree(ProtoBase):
                 if t[0] == "choice" and any(a[0] == "seqof" for a in t[4:]):
                     bad.append("proto.schema_repeated_in_oneof")
             walk_ty(ty, visit)
+            if not bad and self.pc.bin:
+                module, sc, msg = self.message_of(n)
+                e = self.pc.errors.get((module, n.split("::")[1])) or ""
+                # two names of one message that differ only in case / an underscore (`readOnly`, `readonly`)
+                if "JSON camel-case name of field" in e:
+                    return "proto.json_name_conflict"
             return bad[0] if bad else None
         items = self.req_items(req)
         ty, val = uperlib.parse_sx(items[0]), uperlib.parse_sx(items[1])
